@@ -342,6 +342,18 @@ def sass_blank_lines(rng, text, unit):
     return "\n".join(out)
 
 
+def sass_inline_comments(rng, text):
+    """A silent comment or stray white space at the END of statement lines of an indented document."""
+    out = []
+    for l in text.split("\n"):
+        st = l.strip()
+        if st and not st.startswith("@charset") and not st.startswith("@import") and not st.startswith("@use") \
+                and not st.startswith("@forward") and not st.endswith(",") and '"' not in st and "'" not in st and rng.random() < 0.4:
+            l = l + rng.choice([" // note", " //", "  // a // b", " ", "\t", " // $x: 1"])
+        out.append(l)
+    return "\n".join(out)
+
+
 # --------------------------------------------------------------------------------------------
 # token-preserving rewrites
 # --------------------------------------------------------------------------------------------
@@ -710,6 +722,8 @@ def run(tier, seed):
     span_cases = []
     for k, ((rel, src, syn, base, extra), o) in enumerate(zip(meta, outs)):
         ck.hist("relation:" + rel.split(":")[0] if rel.startswith("rewrite") else "relation:" + rel)
+        if rel.startswith("rewrite:"):
+            ck.hist("rewrite-kind:" + rel.split(":", 1)[1])
         if crashed(o):
             # a crash is C01's business; it is not an agreement, so it is reported here too
             ck.hist("crash-seen")
@@ -900,7 +914,7 @@ def add_rewrites(ck, rng, add, src, syn, base, n, **opts):
     """n random variants of `src` that the property calls insignificant."""
     if _NONDETERMINISTIC.search(src):
         return          # output order follows hash order (a C02 matter): two runs of the SAME text differ
-    kinds = ["nl-crlf", "nl-cr", "nl-ff", "ws", "bom", "charset", "names", "value-nl", "sass-blank"]
+    kinds = ["nl-crlf", "nl-cr", "nl-ff", "ws", "bom", "charset", "names", "value-nl", "sass-blank", "sass-inline-comment"]
     rng.shuffle(kinds)
     made = 0
     for kd in kinds:
@@ -942,6 +956,12 @@ def add_rewrites(ck, rng, add, src, syn, base, n, **opts):
                 continue
             unit = "\t" if re.search(r"\n\t", src) else "  "
             v = sass_blank_lines(rng, src.rstrip("\n"), unit) + "\n"
+        elif kd == "sass-inline-comment":
+            # round 3 (seeded C18-r3m2): a silent comment / trailing white space AFTER the tokens of a line of an
+            # indented document (the statement ends at the newline, not at the comment)
+            if syn != "sass" or "/*" in src or "//" in src or ",\n" in src or "\\" in src or "url(" in src or "--" in src:
+                continue
+            v = sass_inline_comments(rng, src)
         if v is None or v == src:
             continue
         add("rewrite:" + kd, v, syn, base=base, **opts)
